@@ -29,6 +29,10 @@ pub fn session_script(rng: &mut Rng, mut pick_limits: impl FnMut(&mut Rng, bool)
         s.push(Action::send(l.line(Some(rng))));
         s.push(Action::WaitBestmove);
         s.push(Action::WaitIdle);
+        if k + 1 < gos && rng.chance(1, 4) {
+            // the GUI thinks for a while (discrete-event time: the clock jumps)
+            s.push(Action::DelayNs(rng.range(1_000_000, 3_000_000_000)));
+        }
         if k + 1 < gos && rng.chance(1, 2) {
             spec = gen::random_posspec(rng);
             s.push(Action::send(spec.cmd.clone()));
